@@ -165,6 +165,7 @@ type scn struct {
 	ords    map[string]int
 	aborted bool
 	retry   bool // a late read showed the object while PING was slow
+	seenKey map[string]int
 }
 
 func newScn(e *env, name, flavor string) *scn {
@@ -258,6 +259,18 @@ func (q *scn) tailLog(n int) []logEnt {
 }
 
 func (q *scn) violation(key, what string, o *obj, extra map[string]any) {
+	if q.seenKey == nil {
+		q.seenKey = map[string]int{}
+	}
+	q.seenKey[key]++
+	if q.seenKey[key] > 1 {
+		// one report per scenario and key; the object is not judged any further
+		if o != nil {
+			o.st = stTainted
+		}
+		q.e.ctx.Count("further_violations_same_scenario_and_key", 1)
+		return
+	}
 	rep := map[string]any{"scenario": q.name, "flavor": q.flavor, "log_times": "milliseconds since scenario start (client monotonic clock)", "commands": q.tailLog(400)}
 	if o != nil {
 		rep["subject"] = q.describe(o)
